@@ -254,10 +254,47 @@ class FakeFrame:
         keep = [i for i, m in enumerate(mask) if m]
         return self._new({c: [self._d[c][i] for i in keep] for c in self.columns}, order=self.columns)
 
+    def partition_by(self, by, *more, maintain_order=True, include_key=True, as_dict=False):
+        """polars: one frame per distinct key, in order of first appearance (maintain_order=True)"""
+        if as_dict or not maintain_order or not include_key:
+            raise Unsupported("FakeFrame.partition_by options")
+        cols = [by] if isinstance(by, str) else list(by)
+        cols += list(more)
+        keys, groups = [], []
+        for i in range(self.height):
+            k = tuple(self._d[c][i] for c in cols)
+            for j, kk in enumerate(keys):
+                if kk == k:
+                    groups[j].append(i)
+                    break
+            else:
+                keys.append(k)
+                groups.append([i])
+        return [self._new({c: [self._d[c][i] for i in g] for c in self.columns}, order=self.columns) for g in groups]
+
+    def sort(self, by, *more, descending=False, nulls_last=False, maintain_order=True):
+        cols = [by] if isinstance(by, str) else list(by)
+        cols += list(more)
+        if descending or nulls_last:
+            raise Unsupported("FakeFrame.sort options")
+        idx = sorted(range(self.height), key=lambda i: tuple((0, "") if self._d[c][i] is None else (1, self._d[c][i]) for c in cols))
+        return self._new({c: [self._d[c][i] for i in idx] for c in self.columns}, order=self.columns)
+
     def __getattr__(self, name):
         if name.startswith("__"):
             raise AttributeError(name)
         raise Unsupported("FakeFrame does not model .%s" % name)
+
+
+def concat_frames(frames, how="vertical", **kw):
+    """pl.concat for stand-in frames (vertical only)"""
+    frames = list(frames)
+    if how != "vertical" or not frames:
+        raise Unsupported("concat(%r)" % (how,))
+    first = frames[0]
+    if any(list(f.columns) != list(first.columns) for f in frames):
+        raise Unsupported("concat of frames with different columns")
+    return first._new({c: [v for f in frames for v in f._d[c]] for c in first.columns}, order=first.columns)
 
 
 class MetaFrame(FakeFrame):
